@@ -266,15 +266,18 @@ class RawVoltageBackend(object):
         # Set header values determined by pipeline parameters
         if 'TELESCOP' not in header_dict:
             header_dict['TELESCOP'] = 'SETIGEN'
-        elif self.input_header_dict is not None and 'SETIGEN' not in self.input_header_dict['TELESCOP']:
+        elif (self.input_header_dict is not None and 'TELESCOP' in self.input_header_dict 
+              and 'SETIGEN' not in self.input_header_dict['TELESCOP']):
             header_dict['TELESCOP'] = f"{self.input_header_dict['TELESCOP'].strip()}_SETIGEN"
         if 'OBSERVER' not in header_dict:
             header_dict['OBSERVER'] = 'SETIGEN'
-        elif self.input_header_dict is not None and 'SETIGEN' not in self.input_header_dict['OBSERVER']:
+        elif (self.input_header_dict is not None and 'OBSERVER' in self.input_header_dict 
+              and 'SETIGEN' not in self.input_header_dict['OBSERVER']):
             header_dict['OBSERVER'] = f"{self.input_header_dict['OBSERVER'].strip()}_SETIGEN"
         if 'SRC_NAME' not in header_dict:
             header_dict['SRC_NAME'] = 'SYNTHETIC'
-        elif self.input_header_dict is not None and 'SYNTHETIC' not in self.input_header_dict['SRC_NAME']:
+        elif (self.input_header_dict is not None and 'SRC_NAME' in self.input_header_dict 
+              and 'SYNTHETIC' not in self.input_header_dict['SRC_NAME']):
             header_dict['SRC_NAME'] = f"{self.input_header_dict['SRC_NAME'].strip()}_SETIGEN"
         
         # Should not be able to manually change these header values
